@@ -27,6 +27,7 @@ var c12Scenarios = []string{
 	"two-writers-around-one-flush",              // G13
 	"writer-registers-while-flush-after-commit", // G14
 	"register-then-workless-flush",
+	"write-lands-between-index-flush-and-sync", // SyncOnFlush: a commit that is followed by index work before it syncs
 	"stress",
 }
 
@@ -39,7 +40,7 @@ func init() {
 		Run:             runC12,
 		CaseTimeout:     2 * time.Minute,
 		HangIsViolation: true,
-		Rule: "store opened with BurstRate(1) and the measured flush rate forced to 1e-9 before every write (verif accessor), so every Put/Remove enters the waiting path. Gated scenarios park the writer at store.flushtick.decided / .registered / .before-block and the flusher at store.flush.after-commit and drive explicit Flush calls in each order (a flush completing between decision and registration followed only by work-less flushes - single writer with and without the started flusher; two writers around one flush; registration while a flush is between commit and notice close; registration followed by a work-less flush); stress cases run 1-6 writers with the periodic flusher (1 ms - 1 h) and/or an explicit flushing goroutine under noise delays at the flushTick/Flush hooks, half of them with the background collectors at 1-3 ms on 100-400 byte primary files, so that records of the writers' keys are relocated while the writers wait. Oracle: every notice channel handed over by the registered hook must be closed when a Flush() that the harness started after that hook event has returned nil (non-blocking receive); at the end no client goroutine is parked in flushTick. " +
+		Rule: "store opened with BurstRate(1) and the measured flush rate forced to 1e-9 before every write (verif accessor), so every Put/Remove enters the waiting path. Gated scenarios park the writer at store.flushtick.decided / .registered / .before-block and the flusher at store.flush.after-commit and drive explicit Flush calls in each order (a flush completing between decision and registration followed only by work-less flushes - single writer with and without the started flusher; two writers around one flush; registration while a flush is between commit and notice close; registration followed by a work-less flush; with SyncOnFlush, a writer's index update landing while a commit is parked between its index flush and its syncs); stress cases run 1-6 writers with the periodic flusher (1 ms - 1 h) and/or an explicit flushing goroutine under noise delays at the flushTick/Flush/commit hooks, half of them with the background collectors at 1-3 ms on 100-400 byte primary files, so that records of the writers' keys are relocated while the writers wait; a third of all cases open the store with SyncOnFlush(true). Oracle: every notice channel handed over by the registered hook must be closed when a Flush() that the harness started after that hook event has returned nil (non-blocking receive); at the end no client goroutine is parked in flushTick; a harness Flush that does not return within 30 s is reported with the goroutine profile (deadlocked flush path). " +
 			"non-trivial iff >=1 write registered for a notice and a flush completed after it; distinct = scenario x observed order of (flushtick, flush) hook events",
 		Assumptions: []string{
 			"flush failures are not injected ('as long as flushes keep succeeding')",
@@ -93,6 +94,12 @@ func runC12(c run.Ctx) *core.CaseResult {
 		sync_ = []time.Duration{time.Millisecond, 5 * time.Millisecond, time.Hour}[r.IntN(3)]
 	}
 	opts := []store.Option{store.BurstRate(1), store.SyncInterval(sync_)}
+	if c.Index%3 == 1 || scen == "write-lands-between-index-flush-and-sync" {
+		// fsync inside every commit: the flush path the waiting writers depend on takes more locks
+		opts = append(opts, store.SyncOnFlush(true))
+		res.Flag("sync-on-flush")
+		res.Add("cases_with_sync_on_flush", 1)
+	}
 	withGC := scen == "stress" && cfg.Primary == gen.MH && c.Index%12 < 6
 	if withGC {
 		// collectors relocating records next to waiting writers (small files so that they have work)
@@ -125,9 +132,26 @@ func runC12(c run.Ctx) *core.CaseResult {
 			res.Note = why
 		}
 	}
+	hung := false
 	flush := func() bool {
-		if err := s.Flush(); err != nil {
-			res.Violate("flush-error", "c12-flush-error", 0, nil, "Flush failed: %v", err)
+		if hung {
+			return false
+		}
+		ferr := make(chan error, 1)
+		go func() { ferr <- s.Flush() }()
+		select {
+		case err := <-ferr:
+			if err != nil {
+				res.Violate("flush-error", "c12-flush-error", 0, nil, "Flush failed: %v", err)
+				return false
+			}
+		case <-time.After(30 * time.Second):
+			// a Flush of a few hundred bytes that does not return is a deadlock in the flush path:
+			// no writer waiting for its notice will ever be released
+			hung = true
+			var b strings.Builder
+			pprof.Lookup("goroutine").WriteTo(&b, 1)
+			res.Violate("flush-hang", "c12-flush-never-returns:"+scen, 0, firstLines(b.String(), 60), "Flush() did not return within 30 s: the flush path is deadlocked and waiting writers are never released")
 			return false
 		}
 		res.Add("harness_flushes", 1)
@@ -135,6 +159,9 @@ func runC12(c run.Ctx) *core.CaseResult {
 	}
 	// checkReleased: every notice registered before 'since' must be closed now
 	checkReleased := func(what string) {
+		if hung {
+			return // already reported: no Flush completes any more
+		}
 		mu.Lock()
 		ns := append([]noticeRec{}, notices...)
 		mu.Unlock()
@@ -245,10 +272,35 @@ func runC12(c run.Ctx) *core.CaseResult {
 				flush() // ... but the next completed one must
 			}
 			checkReleased("registration while a flush was between commit and notice close")
+		case "write-lands-between-index-flush-and-sync":
+			gf := hookrt.NewGate("store.commit.after-index", 1, gateT)
+			rt.AddGate(gf)
+			s.Put(append([]byte{}, u.Keys[len(u.Keys)-1].Raw...), gen.Value(999, 30)) // work for the commit (no rate measured yet: does not wait)
+			fdone := make(chan struct{})
+			go func() { flush(); close(fdone) }()
+			if !gf.WaitArrived(gateT) {
+				gf.Open()
+				inconclusive("flush did not reach the point after the index flush")
+				break
+			}
+			wg.Add(1)
+			go func() { defer wg.Done(); write(0); close(writerDone) }()
+			if !waitCount(rt, "store.flushtick.before-block", 1, gateT) {
+				gf.Open()
+				inconclusive("writer did not register while the commit was parked")
+				break
+			}
+			res.Flag("window-attained")
+			gf.Open()
+			<-fdone
+			for i := 0; i < 3; i++ {
+				flush()
+			}
+			checkReleased("index work arriving between a commit's index flush and its syncs")
 		default: // stress
 			nw := 1 + r.IntN(6)
 			rt.Delay = func(name string, hit int64, goid int64) time.Duration {
-				if !strings.HasPrefix(name, "store.flushtick") && !strings.HasPrefix(name, "store.flush.") && name != "store.run.flushnow" {
+				if !strings.HasPrefix(name, "store.flushtick") && !strings.HasPrefix(name, "store.flush.") && !strings.HasPrefix(name, "store.commit.") && name != "store.run.flushnow" {
 					return 0
 				}
 				h := uint64(c.Index)*7919 + uint64(hit)*104729 + uint64(len(name))*31
@@ -302,7 +354,16 @@ func runC12(c run.Ctx) *core.CaseResult {
 				res.Add("stress_watchdog_fired", 1)
 			}
 			close(stopF)
-			fw.Wait()
+			fwDone := make(chan struct{})
+			go func() { fw.Wait(); close(fwDone) }()
+			select {
+			case <-fwDone:
+			case <-time.After(30 * time.Second):
+				hung = true
+				var b strings.Builder
+				pprof.Lookup("goroutine").WriteTo(&b, 1)
+				res.Violate("flush-hang", "c12-flush-never-returns:"+scen, 0, firstLines(b.String(), 60), "the flushing goroutine's Flush() did not return within 30 s: the flush path is deadlocked and waiting writers are never released")
+			}
 			rt.Delay = nil
 			for i := 0; i < 3; i++ {
 				flush()
@@ -335,7 +396,7 @@ func runC12(c run.Ctx) *core.CaseResult {
 	res.Add("flushes_closing_or_checking_notice", cnt["store.flush.notice-closed"])
 	res.Add("flushes_without_work", cnt["store.flush.no-work"])
 	res.Add("scenario_"+scen, 1)
-	if res.Verdict != "violated" {
+	if res.Verdict != "violated" && !hung {
 		// only close the store when nobody can be stuck (Close does not wake waiters)
 		core.Protect(func() { s.Close() })
 	}
